@@ -89,7 +89,8 @@ def plan(tier, seed, func_mod="vp.props.C01"):
         elif kk == 4:
             pre += ["not xa", "el < 2 or cls == 0"]
         elif cname == "SCRG":
-            pre += ["el < 2", "not xa", "ds in (0, 1, 3, 6, 8, 9)", "role in (0, 1, 3, 4, 6)", "ds in (0, 8) or cs in (0, 3, 7)", "gi < 2 or (ds == 8 and cs == 0)"]
+            pre += ["el < 2", "not xa", "ds in (0, 1, 3, 6, 8, 9)", "role in (0, 1, 3, 4, 6)", "ds in (0, 8) or cs in (0, 3, 7)", "gi < 2 or (ds == 8 and cs == 0)",
+                    "not flip or gi == 0", "el == 0 or role in (0, 4)", "ds in (0, 1, 8) or cs == 0"]
         units.append(Sel(name=f"small_{cname}", func=f"{func_mod}:small{kk}", params=params, pre=pre, shard_by=["el"], timeout=1500,
                          nontrivial="p0 and p1"))
     names = ["star4", "lonepair", "dbond", "ring4", "sn2", "bare"] + (["twocentre", "star5", "star6"] if tier == "thorough" else [])
@@ -106,10 +107,12 @@ def plan(tier, seed, func_mod="vp.props.C01"):
                     "dbond": ["sub in (0, 1, 2, 4)", "order % 9 == 0 or order < 3", "chg in (0, 3)", "gi % 2 == 0"],
                     "ring4": ["chg in (0, 2)"], "sn2": ["gi < 3"], "bare": ["k < 8", "k < 7 or cls == 1"]}.get(n, [])
         else:
-            pre += {"star6": ["order % 11 == 0", "gi % 5 == 0", "lig in (0, 1, 3)", "chg in (0, 2)"],
-                    "star5": ["order % 3 == 0", "chg in (0, 1, 2)"],
-                    "star4": ["gi % 2 == 0", "chg < 3"], "lonepair": ["gi % 2 == 0", "chg in (0, 2)", "order % 2 == 0 or lig == 0"],
-                    "dbond": ["chg in (0, 2)", "sub != 3"]}.get(n, [])
+            # sized so that the thorough tier of C01 / C03 stays near a quarter of an hour on 16 cores (measured 0.4-0.6 CPU-s per input)
+            pre += {"star6": ["order % 60 == 0", "gi % 8 == 0", "lig in (0, 1, 3)", "chg in (0, 2)", "not flip or gi == 0"],
+                    "star5": ["order % 12 == 0", "chg in (0, 2)", "gi % 3 == 0", "lig < 3"],
+                    "star4": ["gi % 4 == 0", "chg < 3", "order % 3 == 0 or order < 4", "lig < 4"],
+                    "lonepair": ["gi % 4 == 0", "chg in (0, 2)", "order % 3 == 0", "lig in (0, 1, 3)"],
+                    "dbond": ["chg in (0, 2)", "sub in (0, 1, 2, 4, 6)", "order % 6 == 0 or order < 3", "gi % 2 == 0"]}.get(n, [])
         units.append(Sel(name=f"{n}_{c}", func=f"{func_mod}:template", params=params, pre=pre, shard_by=["par"] if "par" in params else [],
                          timeout=1500, nontrivial="k > 2" if n == "bare" else "gi > 0 or flip"))
     return units
